@@ -24,7 +24,7 @@ def run(ck):
     pipeline.store_pipeline(ck, "C01.R2", want_bounds=True)
     carriers.threshold_everywhere(ck, "C18.R1")
     funcs.governing_config(ck, "C08.R3")               # results stored with wrap: the wrap configuration must be the one the result carries
-    sizes.resize_rules(ck, {"restore_raw": "C10.R1"})  # resize re-stores exact integer codes (no float detour at 64+ bits)
+    sizes.resize_rules(ck, {"restore_raw": "C10.R1", "refresh": "C10.R2"})  # resize re-stores exact integer codes (no float detour at 64+ bits), on every path: a change of signedness alone re-interprets the word
     # products stored with wrap into 64+ bit registers: the multiply must not fold modulo 2^64 first
     widths.kernel_widths(ck, "C19.R1", None, names=("mul",))
     fresh.constructor_state(ck, "C20.R2")            # an explicit overflow='wrap' reaches the final configuration
